@@ -121,6 +121,20 @@ Proof.
   - constructor; [|constructor]. eapply jeq_obj; [apply perm_swap|]. repeat constructor.
 Qed.
 
+(* both defects are repaired on the current tree: hard obligations + unconditional corollaries *)
+Lemma gen_context_keys_sorted : context_keys_sorted = true.
+Proof. reflexivity. Qed.
+Lemma gen_enrich_on_copy : enrich_on_copy = true.
+Proof. reflexivity. Qed.
+Theorem C04_ids_invariant :
+  forall U5 H c c', cfg_wf false c = true -> cfg_equiv c c' -> spec_ids U5 H c = spec_ids U5 H c'.
+Proof. exact (C04_ids_invariant_full gen_context_keys_sorted). Qed.
+Theorem C04_ids_pure :
+  forall U5 H hist i c enr, nth_error (run_hist hist) i = Some (c, enr) ->
+  impl_run_ids U5 H hist i = Some (spec_ids U5 H c) /\ impl_inspect_ids U5 H hist c = spec_ids U5 H c.
+Proof. exact (C04_ids_pure_full gen_enrich_on_copy). Qed.
+Print Assumptions C04_ids_invariant.
+Print Assumptions C04_ids_pure.
 Print Assumptions C04_dumps_perm_invariant.
 Print Assumptions C04_ids_invariant_full.
 Print Assumptions C04_ids_invariant_partial.
